@@ -128,6 +128,7 @@ def xsum(l): return sum(l, LinExpr())
 class Model:
     def __init__(self, name="", *a, **kw):
         self.vars = []; self.constrs = []; self.objective = None; self.verbose = 0
+        self.max_mip_gap_abs = 1e-10; self.max_mip_gap = 1e-4      # the mip package's defaults; the absolute gap is part of the modelled contract
 
     def add_var(self, name="", var_type=None, lb=0, ub=None, **kw):
         v = Var(); self.vars.append(v); return v
@@ -173,7 +174,11 @@ class Model:
         c.add_fact(('opt', oi, len(cands)), lambda: z3.And(z3.And([z3.Implies(f, opt <= v) for f, v in zip(feasz, vals)]),
                                                             z3.Or([z3.And(f, opt == v) for f, v in zip(feasz, vals)])))
         for (a, feas, _), f, v in zip(cands, feasz, vals):
-            if c.decide_z(z3.And(f, v == opt)):
+            # a solver may stop at any feasible assignment whose objective is within max_mip_gap_abs of the optimum
+            from fractions import Fraction as _F
+            gap = _F(self.max_mip_gap_abs).limit_denominator(10 ** 6) if self.max_mip_gap_abs and self.max_mip_gap_abs > 1e-6 else None
+            within = (v == opt) if gap is None else (v * gap.denominator <= opt * gap.denominator + gap.numerator * D)
+            if c.decide_z(z3.And(f, within)):
                 if c.choose('opt'):
                     for var, x in a.items(): var.x = float(x)
                     return OptimizationStatus.OPTIMAL
